@@ -104,11 +104,11 @@ pub fn custom_group(index: usize) -> (WallpaperGroup<'static>, Vec<Aff>) {
     let op = |a: f64, b: f64, c: f64, d: f64, tx: f64, ty: f64| Aff { l: Lin { a, b, c, d }, t: P::new(tx, ty) };
     match index % 3 {
         0 => (
-            WallpaperGroup { name: "p4", family: packing::CrystalFamily::Tetragonal, wyckoff_str: vec!["x,y", "-y,x", "-x,-y", "y,-x"] },
+            statejson::custom_wallpaper_group("p4", packing::CrystalFamily::Tetragonal, vec!["x,y", "-y,x", "-x,-y", "y,-x"]),
             vec![op(1., 0., 0., 1., 0., 0.), op(0., -1., 1., 0., 0., 0.), op(-1., 0., 0., -1., 0., 0.), op(0., 1., -1., 0., 0., 0.)],
         ),
         1 => (
-            WallpaperGroup { name: "p4mm", family: packing::CrystalFamily::Tetragonal, wyckoff_str: vec!["x,y", "-x,-y", "-y,x", "y,-x", "-x,y", "x,-y", "y,x", "-y,-x"] },
+            statejson::custom_wallpaper_group("p4mm", packing::CrystalFamily::Tetragonal, vec!["x,y", "-x,-y", "-y,x", "y,-x", "-x,y", "x,-y", "y,x", "-y,-x"]),
             vec![
                 op(1., 0., 0., 1., 0., 0.),
                 op(-1., 0., 0., -1., 0., 0.),
@@ -121,7 +121,7 @@ pub fn custom_group(index: usize) -> (WallpaperGroup<'static>, Vec<Aff>) {
             ],
         ),
         _ => (
-            WallpaperGroup { name: "c1m1", family: packing::CrystalFamily::Orthorhombic, wyckoff_str: vec!["x,y", "-x,y", "x+1/2,y+1/2", "-x+1/2,y+1/2"] },
+            statejson::custom_wallpaper_group("c1m1", packing::CrystalFamily::Orthorhombic, vec!["x,y", "-x,y", "x+1/2,y+1/2", "-x+1/2,y+1/2"]),
             vec![op(1., 0., 0., 1., 0., 0.), op(-1., 0., 0., 1., 0., 0.), op(1., 0., 0., 1., 0.5, 0.5), op(-1., 0., 0., 1., 0.5, 0.5)],
         ),
     }
